@@ -1508,6 +1508,35 @@ class World:
                     else:
                         rm(d, "extra")
                         obs.result = ("extra-removed", d)
+        elif kind == "SAMEDIR":
+            # (module-level API) the caller tries to create a SECOND named cache on the directory the first one uses,
+            # spelled the same way or differently ("dir/", "dir/.", "x/../dir").  Documented: refused with ValueError.
+            # If it is accepted, two cache objects manage one directory; a request through the second one makes the
+            # consequence visible (the first cache's entry count no longer matches the files on disk).
+            obs.result = None
+            if self.knobs.get("api", "object") == "module" and self.cache is not None and not self.knobs.get("cache_dir_link"):
+                arg = self.cache_arg
+                spells = [arg, arg + "/", arg + "/."]
+                if "/" in arg.rstrip("/"):
+                    spells.append(posixpath.dirname(arg) + "/x/../" + posixpath.basename(arg))
+                spell = spells[op.get("spell", 0) % len(spells)]
+                alias = "verif-alias"
+                try:
+                    self.fc.create_cache(alias, spell, cache_size_GB=1000.0, resources=self._resources())
+                except ValueError:
+                    obs.result = ("refused", spell)
+                else:
+                    try:
+                        reg = self.cache.in_cache([self.uris[i] for i in range(len(self.keys))])
+                        free = [i for i, b in enumerate(reg) if not b and self.store.current(self.keys[i]["res"]) is not None
+                                and self.keys[i]["scheme"] != "nosuch"]
+                        if free:
+                            self.current_req = [free[0]]
+                            self._register_directives(lambda d, n, f: self.fc.set_directive_function(d, n, f, alias))
+                            self.fc.filepaths([self.uris[free[0]]], alias)
+                    finally:
+                        self.fc._ACTIVE_FILE_CACHES.pop(alias, None)
+                    obs.result = ("accepted", spell)
         elif kind == "RES_UPDATE":
             self.store.update(op["res"], op.get("size"))
             self.sync_remote_files()
